@@ -96,6 +96,28 @@ def make_harness(spec_name, spec_fn, T):
                         res[route] = onp.array(cols).T if cols else onp.zeros((0, 0))
                     except Exception as e:
                         res[route + "_exc"] = "%s: %s" % (type(e).__name__, str(e)[:100])
+                # zero-residual least squares: phi0(x) = 1/2 |f(x) - f(x0)|^2 has gradient 0 at x0 and Hessian J^T J (Gauss-Newton).
+                # Every cotangent entering f's rules is *zero-valued but traced* here - the situation that value-dependent fast
+                # paths ("if any(g): ...") get wrong at second order only.
+                try:
+                    c0 = onp.asarray(out0, dtype=float)
+                    phi0 = lambda xx: 0.5 * anp.sum((call(anp, xx) - c0) ** 2)
+                    g0fun = ag.grad(phi0)
+                    Jn, _ = O.numjac(lambda xx: onp.asarray(call(W.NPX, xx), dtype=float), x)
+                    res["gn_want"] = Jn.T @ Jn
+                    for route in ("RR", "FR"):
+                        try:
+                            cols = []
+                            for v in basis:
+                                hv = ag.make_vjp(g0fun)(x)[0](v) if route == "RR" else ag.make_jvp(g0fun)(x)(v)[1]
+                                cols.append(onp.asarray(hv, dtype=float).reshape(-1))
+                            res["gn_" + route] = onp.array(cols).T if cols else onp.zeros((0, 0))
+                        except Exception as e:
+                            res["gn_exc_" + route] = "%s: %s" % (type(e).__name__, str(e)[:100])
+                except O.Untrusted:
+                    pass
+                except Exception as e:
+                    res["gn_exc"] = "%s: %s" % (type(e).__name__, str(e)[:100])
                 try:
                     Hn, _ = O.numjac(lambda xx: onp.asarray(gfun(xx), dtype=float), x)
                     res["num"] = Hn
@@ -146,6 +168,15 @@ def make_harness(spec_name, spec_fn, T):
             o["nontrivial"] = bool(onp.any(Hn != 0) and n > 1)
         else:
             counts["undecided-numerically"] += 1
+        if "gn_want" in res:
+            for r in ("gn_RR", "gn_FR"):
+                if r in res and (res[r].shape != res["gn_want"].shape or not O.maxrel(res[r], res["gn_want"]) <= TOL_NUM):
+                    V(r, "gauss-newton-hessian-wrong", dict(max_rel=O.maxrel(res[r], res["gn_want"]) if res[r].shape == res["gn_want"].shape else "shape",
+                                                             got=W.summarize(res[r])), W.summarize(res["gn_want"]))
+                    break
+            counts["gauss-newton-checked"] += 1
+        elif "gn_exc" in res:
+            counts["gauss-newton-raised"] += 1
         counts["routes-%d" % len(names)] += 1
         o["outcome"] = (tuple(names), "num" in res)
         return o
